@@ -78,16 +78,18 @@ func (r *muxRig) addPair() {
 // quiesce returns once no thread can run (virtual time only advances then).
 func quiesce() { time.Sleep(time.Millisecond) }
 
+// methodOf: the wire number of an encryption method (literal Cloak v2 values, not the package's
+// constants: the reference codec and a peer of another build depend on the numbers themselves).
 func methodOf(s string) byte {
 	switch s {
 	case "plain":
-		return EncryptionMethodPlain
+		return 0
 	case "aes-256-gcm":
-		return EncryptionMethodAES256GCM
-	case "aes-128-gcm":
-		return EncryptionMethodAES128GCM
+		return 1
 	case "chacha20-poly1305":
-		return EncryptionMethodChaha20Poly1305
+		return 2
+	case "aes-128-gcm":
+		return 3
 	}
 	panic("unknown method " + s)
 }
